@@ -126,9 +126,13 @@ fn run_case(cx: &CaseCtx, rep: &mut Report) {
 		"pmtiles" => vec![TileFormat::PBF, TileFormat::PNG, TileFormat::JPG, TileFormat::WEBP, TileFormat::AVIF],
 		_ => crate::gen::FORMATS.to_vec(),
 	};
-	if fmts.is_empty() {
+	// a pairing the target cannot hold (MBTiles declares the compression through its format row: pbf = gzip, images =
+	// none) has to be refused — or, if it is written after all, has to be right like any other conversion
+	let all_mb = [TileFormat::PBF, TileFormat::PNG, TileFormat::JPG, TileFormat::WEBP];
+	let inexpressible = fmts.is_empty() || (target == "mbtiles" && fmts.len() < all_mb.len() && rng.chance(0.3));
+	let fmts: Vec<TileFormat> = if inexpressible { all_mb.iter().filter(|f| !fmts.contains(f)).cloned().collect() } else { fmts };
+	if inexpressible {
 		rep.count("combinations_not_expressible", 1);
-		return;
 	}
 	let format = *rng.pick(&fmts);
 	// thorough: about fifteen conversions with tiles beyond 16 MiB
@@ -213,11 +217,19 @@ fn run_case(cx: &CaseCtx, rep: &mut Report) {
 			rep.violation(&p.signature("convert"), "conversion panicked", witness(json!({"panic": p.describe()})));
 			return;
 		}
+		Ok(Err(_)) if inexpressible => {
+			rep.count("inexpressible_combinations_refused", 1);
+			return;
+		}
 		Ok(Err(e)) => {
 			rep.violation("convert-failed", "a valid conversion failed", witness(json!({"error": format!("{e:#}")})));
 			return;
 		}
-		Ok(Ok(())) => {}
+		Ok(Ok(())) => {
+			if inexpressible {
+				rep.count("inexpressible_combinations_written", 1);
+			}
+		}
 	}
 	rep.nontrivial(ts.fingerprint() ^ fnv(desc.as_bytes()));
 
